@@ -173,6 +173,8 @@ def main(argv=None):
         else:
             known_hits.setdefault(k['id'], {'finding': k, 'count': 0, 'example': v})
             known_hits[k['id']]['count'] += 1
+    if os.environ.get('VERIF_DUMP'):
+        json.dump({'violations': violations, 'errors': errors}, open(os.environ['VERIF_DUMP'], 'w'), default=str)
     wall = time.time() - t0
     # ---- evidence ----------------------------------------------------------------------------------------------
     states = agg['paths'] + int(extra.get('states', 0))
